@@ -461,6 +461,8 @@ class Interp:
         v = mm.group(1).strip()
         if v.startswith('"'):
             return parse_literal(v)
+        if v.startswith('log::'):
+            return Sym(v)
         return self.prog.const_value(v)
 
     # ---- rvalues
@@ -511,6 +513,8 @@ class Interp:
                 return Agg(ty, var, table[var], args)
         if re.match(r'^[A-Z]\w*$', rv):
             return Sym(rv)  # unit struct (RangeFull ...)
+        if re.match(r'^log::(Level|LevelFilter)::\w+$', rv) or re.match(r'^log::__private_api::\w+$', rv):
+            return Sym(rv)  # logging is environment without effect
         mco = re.match(r'^\{coroutine@[^}]*\}(?: \{ (.*) \})?$', rv)
         if mco:
             # the state machine of an `async fn` of the crate: its captured arguments, unresumed
